@@ -16,6 +16,10 @@ def tv(text, ref, **kw):
 
 
 CHECKS = {
+ 'C01': tv('A corpus of 47 templates, one or more per statement/expression form of the translator (if/else with init, expression/tagless/type switch with fallthrough and break, for/range over every rangeable kind, '
+           'labels, goto, closures capturing loop variables, tuple assignment and forwarding, variadics, op-assign, method values/expressions, embedding, composite literals, zero values, builtins, copy overlap, '
+           'constants, conversions, reserved-word and JS-global identifiers, goroutines+select, endings by uncaught panic and deadlock, package initialisation): the emitted JavaScript is executed symbolically and '
+           'every path must give the trace and ending the Go specification prescribes, for all int16 input pairs and selectors. Every program is also built with and without -m and passed to node --check (plain observation).', 'DESIGN.md §4 C01'),
  'C02': tv('Each dynamic call of a yield intrinsic is a symbolic boolean: the goroutine suspends exactly as a blocking runtime primitive would ($block, {$blk} frame, $schedule) or not. '
            'For a corpus of 16 programs (yield reached through direct/method/method-value/method-expression/interface/closure/generic calls, in argument lists, && / ||, loops, switch, '
            'defer+named results, return with blocking defers, panic/recover, package initialisers, another goroutine) every subset of yield points and all int16 inputs give the specified trace.', 'DESIGN.md §4 C02'),
